@@ -12,13 +12,15 @@ from pv.explore import history as H
 PROP = "C14"
 ENGINE = "E3 history explorer (explicit-state BFS over replayed histories)"
 RULE = (
-    "for every placement of a function in a generated module file (module level, method, method of a "
-    "nested class, function defined inside a function, functools.wraps-decorated function) and both "
-    "codefind cache modes: breadth-first search over all operation sequences up to the depth bound over "
-    "{activate a probe by name, activate a probe by reference string, deactivate (any order), call, "
-    "resolve the reference}; the module is re-imported for every replay. At every resolve: no exception "
-    "and select(ref + ' > v').element.name is the function; activation by reference must succeed in every "
-    "state; at every call each active probe, by name or by reference, receives the same events"
+    "for six pairs of placements in a generated module file (module-level function + its caller through a "
+    "call-path selector, method + same-named module-level function and vice versa, function defined inside "
+    "a function + its enclosing function, method of a nested class + method, functools.wraps-decorated "
+    "function + plain function) and both codefind cache modes: breadth-first search over all operation "
+    "sequences up to the depth bound over {activate / deactivate (any order) a probe on the primary function "
+    "by name / by reference and on the secondary by name / by reference, call the primary, call the "
+    "secondary, resolve both references}; the module is re-imported for every replay. At every resolve both "
+    "references resolve, without exception, to the very functions; activation by reference succeeds in every "
+    "state; at every call each active probe, by name or by reference, receives exactly its events"
 )
 ASSUMPTIONS = [
     "two closures over one code object cannot be told apart by a reference string: one live instance only",
@@ -40,6 +42,15 @@ def top(x):
     v = x + 1
     return v
 
+def meth(x):
+    # module-level function with the same name as the method K.meth
+    v = x + 6
+    return v
+
+def caller(x):
+    r = top(x)
+    return r
+
 class K:
     def meth(self, x):
         v = x + 2
@@ -51,6 +62,7 @@ class K:
             return v
 
 def outer():
+    k = 7
     def inner(x):
         v = x + 4
         return v
@@ -64,15 +76,28 @@ def decorated(x):
     return v
 '''
 
-# placement -> (how to get the object to pass to refstring, name selector, how to call, offset)
+# placement -> (object to pass to refstring, name selector, how to call, what the probed variable is, its value for x)
 PLACEMENTS = {
-    "top": ("top", "top", lambda m, x: m.top(x), 1),
-    "method": ("K.meth", "K.meth", lambda m, x: m.K().meth(x), 2),
-    "nested-class-method": ("K.Inner.im", "K.Inner.im", lambda m, x: m.K.Inner().im(x), 3),
-    "inner-function": ("inner_fn", "inner_fn", lambda m, x: m.inner_fn(x), 4),
-    "decorated": ("decorated", "decorated", lambda m, x: m.decorated(x), 5),
+    "top": ("top", "top", lambda m, x: m.top(x), "v", lambda x: x + 1),
+    "method": ("K.meth", "K.meth", lambda m, x: m.K().meth(x), "v", lambda x: x + 2),
+    "nested-class-method": ("K.Inner.im", "K.Inner.im", lambda m, x: m.K.Inner().im(x), "v", lambda x: x + 3),
+    "inner-function": ("inner_fn", "inner_fn", lambda m, x: m.inner_fn(x), "v", lambda x: x + 4),
+    "decorated": ("decorated", "decorated", lambda m, x: m.decorated(x), "v", lambda x: x + 5),
+    "module-meth": ("meth", "meth", lambda m, x: m.meth(x), "v", lambda x: x + 6),
+    "outer-function": ("outer", "outer", lambda m, x: m.outer() and None, "k", lambda x: 7),
+    # a call path: the secondary probe is `caller > top > v`; calling it runs the primary function top
+    "caller-path": ("caller", "caller", lambda m, x: m.caller(x), "v", lambda x: x + 1),
 }
-SLOTS = ["N1", "N2", "R1", "R2"]
+# (primary, secondary): probes on both, references of both resolved at every `resolve`
+PAIRS = [
+    ("top", "caller-path"),
+    ("method", "module-meth"),
+    ("module-meth", "method"),
+    ("inner-function", "outer-function"),
+    ("nested-class-method", "method"),
+    ("decorated", "top"),
+]
+SLOTS = ["N1", "R1", "Q1", "Q2"]  # primary by name / by reference, secondary by name / by reference
 _COUNTER = [0]
 _DIRS = []
 
@@ -100,8 +125,18 @@ def _get(mod, dotted):
     return obj
 
 
+class Target:
+    def __init__(self, mod, placement):
+        objname, self.namesel, self.caller, self.var, self.value = PLACEMENTS[placement]
+        self.placement = placement
+        self.obj = _get(mod, objname)
+        self.fn = getattr(self.obj, "__wrapped__", self.obj)
+        self.orig_code = self.fn.__code__
+        self.ref = None
+
+
 class World:
-    def __init__(self, placement, cache_mode):
+    def __init__(self, pair, cache_mode):
         from codefind import code_registry
 
         _COUNTER[0] += 1
@@ -114,15 +149,11 @@ class World:
         importlib.invalidate_caches()
         self.mod = importlib.import_module(self.modname)
         self.path = path
-        objname, self.namesel, self.caller, self.offset = PLACEMENTS[placement]
-        obj = _get(self.mod, objname)
-        self.fn = getattr(obj, "__wrapped__", obj)
-        self.obj = obj
-        self.orig_code = self.fn.__code__
+        self.p = Target(self.mod, pair[0])
+        self.q = Target(self.mod, pair[1])
         self.probes = {}
         self.streams = {s: [] for s in SLOTS}
         self.calls = 0
-        self.ref = None
         code_registry.always_use_cache = cache_mode
         code_registry.last_cost = 0
 
@@ -135,9 +166,10 @@ class World:
 
 
 class System:
-    def __init__(self, placement, cache_mode):
-        self.placement = placement
+    def __init__(self, pair, cache_mode):
+        self.pair = pair
         self.cache_mode = cache_mode
+        self.path_pair = pair[1] == "caller-path"
 
     def initial_model(self):
         return ((), 0)  # active slots (in activation order), calls
@@ -147,7 +179,7 @@ class System:
         ops = []
         for s in SLOTS:
             ops.append(("act", s) if s not in act else ("deact", s))
-        ops += [("call",), ("resolve",)]
+        ops += [("call",), ("callq",), ("resolve",)]
         return ops
 
     def step_model(self, m, op):
@@ -156,32 +188,56 @@ class System:
             return (act + (op[1],), calls), "ok"
         if op[0] == "deact":
             return (tuple(s for s in act if s != op[1]), calls), "ok"
-        if op[0] == "call":
+        if op[0] in ("call", "callq"):
             x = calls + 1
-            val = x + PLACEMENTS[self.placement][3]
-            return (act, x), ("result", val, tuple(sorted((s, (val,)) for s in act)))
+            pv = PLACEMENTS[self.pair[0]][4](x)
+            qv = PLACEMENTS[self.pair[1]][4](x)
+            exp = {}
+            for s in act:
+                if s in ("N1", "R1"):
+                    # the primary function runs on `call`, and on `callq` when the secondary is its caller
+                    if op[0] == "call" or self.path_pair:
+                        exp[s] = (pv,)
+                else:
+                    if op[0] == "callq":
+                        exp[s] = (qv,)
+            return (act, x), ("events", tuple(sorted(exp.items())))
         if op[0] == "resolve":
-            return m, "resolved-to-the-function"
+            return m, "both-references-resolve-to-their-functions"
         raise KeyError(op)
 
     def model_key(self, m):
         return m[0]
 
     def outcome_class(self, m):
-        return (len([s for s in m[0] if s[0] == "N"]), len([s for s in m[0] if s[0] == "R"]))
+        return tuple(sorted(m[0]))
 
     def fresh(self):
         world.reset_context()
-        return World(self.placement, self.cache_mode)
+        return World(self.pair, self.cache_mode)
 
-    def _ref(self, w):
+    def _ref(self, t):
         from ptera import refstring
         from codefind import code_registry
 
         code_registry.last_cost = 0
-        if w.ref is None:
-            w.ref = refstring(w.obj)
-        return w.ref
+        if t.ref is None:
+            t.ref = refstring(t.obj)
+        return t.ref
+
+    def _selector(self, w, slot):
+        """(selector text, env, captured variable name)"""
+        if slot == "N1":
+            return f"{w.p.namesel} > {w.p.var}", vars(w.mod), w.p.var
+        if slot == "R1":
+            return f"{self._ref(w.p)} > {w.p.var}", {}, w.p.var
+        if self.path_pair:
+            if slot == "Q1":
+                return f"caller > top > v", vars(w.mod), "v"
+            return f"{self._ref(w.q)} > {self._ref(w.p)} > v", {}, "v"
+        if slot == "Q1":
+            return f"{w.q.namesel} > {w.q.var}", vars(w.mod), w.q.var
+        return f"{self._ref(w.q)} > {w.q.var}", {}, w.q.var
 
     def apply(self, w, op):
         from ptera import probing
@@ -192,29 +248,29 @@ class System:
         try:
             if op[0] == "act":
                 slot = op[1]
-                if slot[0] == "N":
-                    p = probing(f"{w.namesel} > v", env=vars(w.mod))
-                else:
-                    p = probing(f"{self._ref(w)} > v", env={})
-                p.subscribe(lambda ev, s=slot: w.streams[s].append(ev["v"]))
+                text, env, var = self._selector(w, slot)
+                p = probing(text, env=env)
+                p.subscribe(lambda ev, s=slot, var=var: w.streams[s].append(ev[var]))
                 p.__enter__()
                 w.probes[slot] = p
                 return "ok"
             if op[0] == "deact":
                 w.probes.pop(op[1]).__exit__(None, None, None)
                 return "ok"
-            if op[0] == "call":
+            if op[0] in ("call", "callq"):
                 for s in w.streams.values():
                     del s[:]
                 w.calls += 1
-                r = w.caller(w.mod, w.calls)
-                return ("result", r, tuple(sorted((s, tuple(e)) for s, e in w.streams.items() if e or s in w.probes)))
+                t = w.p if op[0] == "call" else w.q
+                t.caller(w.mod, w.calls)
+                return ("events", tuple(sorted((s, tuple(e)) for s, e in w.streams.items() if e)))
             if op[0] == "resolve":
-                sel = select(f"{self._ref(w)} > v", env={})
-                target = sel.element.name
-                if target is w.fn:
-                    return "resolved-to-the-function"
-                return ("resolved-to-another-object", repr(target))
+                for t in (w.p, w.q):
+                    sel = select(f"{self._ref(t)} > {t.var}", env={})
+                    target = sel.element.name
+                    if target is not t.fn:
+                        return ("reference-resolves-to-another-object", t.placement, repr(target))
+                return "both-references-resolve-to-their-functions"
         except BaseException as e:
             return ("raised", type(e).__name__, str(e)[:200])
         raise KeyError(op)
@@ -222,19 +278,23 @@ class System:
     def impl_key(self, w):
         from codefind import code_registry as cr
 
-        st = getattr(w.fn, "__ptera_stack__", None)
-        stack = None if st is None else (st.instrument_count, tuple(sorted((str(c), n) for c, n in st.captures.items() if n)))
-        cur = w.fn.__code__
-        # registry view: which objects the registry lists for the original and the current code
         def listed(code):
             return tuple(sorted(type(o).__name__ + (":discard" if getattr(o, "__ptera_discard__", False) else "") for o in cr.functions.get(code, ())))
-        return (stack, cur is w.orig_code, listed(w.orig_code), listed(cur), tuple(sorted(w.probes)))
+
+        out = []
+        for t in (w.p, w.q):
+            st = getattr(t.fn, "__ptera_stack__", None)
+            stack = None if st is None else (st.instrument_count, tuple(sorted((str(c), n) for c, n in st.captures.items() if n)))
+            cur = t.fn.__code__
+            out.append((stack, cur is t.orig_code, listed(t.orig_code), listed(cur)))
+        return (tuple(out), tuple(sorted(w.probes)))
 
     def invariant(self, w, m):
         act, calls = m
         probs = []
         if not act:
-            probs += world.clean_state_problems(w.fn, w.orig_code)
+            for t in (w.p, w.q):
+                probs += [f"{t.placement}: {p}" for p in world.clean_state_problems(t.fn, t.orig_code)]
         return probs
 
     def close(self, w):
@@ -249,16 +309,17 @@ class System:
 
 def units(tier):
     out = []
-    for placement in PLACEMENTS:
+    for pair in PAIRS:
         for cache_mode in (False, True):
-            out.append(("bfs", placement, cache_mode))
+            out.append(("bfs", pair, cache_mode))
     return out
 
 
 def work(unit, tier):
     part = new_partial()
-    _, placement, cache_mode = unit
-    system = System(placement, cache_mode)
+    _, pair, cache_mode = unit
+    placement = "+".join(pair)
+    system = System(tuple(pair), cache_mode)
     try:
         res = H.explore(system, BOUNDS[tier]["depth"], audit_depth=BOUNDS[tier].get("merge_audit_depth", 0))
     finally:
@@ -287,7 +348,7 @@ def work(unit, tier):
 
 
 def replay(case):
-    system = System(case["placement"], case["cache_mode"])
+    system = System(tuple(case["placement"].split("+")), case["cache_mode"])
     hist = tuple(tuple(o) for o in case["history"])
     try:
         w, m, problem, at = H.run_history(system, hist)
